@@ -269,3 +269,153 @@ pub fn has_alias(g: &Goal) -> bool {
     }
     dup
 }
+
+// ---------------------------------------------------------------------------------------------
+// wide domains (scale family of C16/C17): the same vocabulary, but domains with tens to hundreds
+// of values — long intervals, long sparse lists, and several domains for one variable so that
+// interval ∩ sparse, sparse ∩ sparse and interval ∩ interval intersections of large operands
+// are taken.
+
+fn heavy(s: &mut Source, cap: usize) -> usize {
+    crate::gen::scale::size(s, cap)
+}
+
+pub fn gen_case_wide(s: &mut Source, thorough: bool) -> FdCase {
+    let nvars = 1 + s.below(3);
+    let nhidden = if nvars > 1 && s.flag(50) { 1 } else { 0 };
+    let nvisible = nvars - nhidden;
+    let caps: [usize; 3] = if thorough { [1200, 60, 6] } else { [300, 40, 6] };
+    // per variable: one to three domain descriptions; the effective domain is their intersection
+    let mut domain_goals: Vec<Goal> = vec![];
+    let mut eff: Vec<std::collections::BTreeSet<i64>> = vec![];
+    // which variable gets the widest cap
+    let wide_at = s.below(nvars);
+    for v in 0..nvars {
+        let cap = if v == wide_at { caps[0] } else if (v + nvars - wide_at) % nvars == 1 { caps[1] } else { caps[2] };
+        let nd = 1 + s.weighted(&[5, 3, 1]);
+        let mut cur: Option<std::collections::BTreeSet<i64>> = None;
+        let base = s.range(-20, 20);
+        for _ in 0..nd {
+            let (goal, set): (Goal, std::collections::BTreeSet<i64>) = if s.flag(110) {
+                // sparse: an arithmetic progression, possibly with a few holes / extras
+                let n = heavy(s, cap.min(150)).max(1);
+                let stride = 1 + s.below(7) as i64;
+                let start = base + s.range(-5, 5);
+                let mut vals: Vec<i64> = (0..n as i64).map(|i| start + i * stride).collect();
+                let holes = s.below(4);
+                for _ in 0..holes {
+                    if vals.len() > 1 {
+                        let k = s.below(vals.len());
+                        vals.remove(k);
+                    }
+                }
+                if s.flag(40) {
+                    vals.reverse(); // unsorted input
+                }
+                if s.flag(40) && !vals.is_empty() {
+                    let k = s.below(vals.len());
+                    vals.push(vals[k]); // duplicate
+                }
+                let set = vals.iter().copied().collect();
+                (Goal::Fd(FdGoal::InFd(Term::Var(v as VarId), vals)), set)
+            } else {
+                let n = heavy(s, cap).max(1) as i64;
+                let a = base + s.range(-10, 30);
+                let b = a + n - 1;
+                (Goal::Fd(FdGoal::InFdRange(Term::Var(v as VarId), a, b)), (a..=b).collect())
+            };
+            domain_goals.push(goal);
+            cur = Some(match cur {
+                None => set,
+                Some(c) => c.intersection(&set).copied().collect(),
+            });
+        }
+        eff.push(cur.unwrap_or_default());
+    }
+    // witness inside the effective domains when possible
+    let wit: Vec<i64> = eff
+        .iter()
+        .map(|d| {
+            if d.is_empty() {
+                0
+            } else {
+                let k = s.below(d.len());
+                *d.iter().nth(k).unwrap()
+            }
+        })
+        .collect();
+    let steer = s.flag(190);
+    let var = |s: &mut Source| Term::Var(s.below(nvars) as VarId);
+    let operand = |s: &mut Source| -> Term {
+        if s.flag(70) {
+            // constants near the witness values or anywhere in the wide range
+            if s.flag(128) {
+                Term::Int(wit[s.below(nvars)] + s.range(-2, 2))
+            } else {
+                Term::Int(s.range(-30, 330))
+            }
+        } else {
+            Term::Var(s.below(nvars) as VarId)
+        }
+    };
+    let nc = s.below(4);
+    let mut cons = vec![];
+    for _ in 0..nc {
+        let g = match s.weighted(&[3, 2, 3, 2, 1, 2, 1, 2]) {
+            0 => Goal::Fd(FdGoal::Lte(operand(s), operand(s))),
+            1 => Goal::Fd(FdGoal::Lt(operand(s), operand(s))),
+            2 => Goal::Fd(FdGoal::Plus(operand(s), operand(s), operand(s))),
+            3 => Goal::Fd(FdGoal::Minus(operand(s), operand(s), operand(s))),
+            4 => Goal::Fd(FdGoal::Times(operand(s), Term::Int(s.range(-3, 4)), operand(s))),
+            5 => Goal::Fd(FdGoal::Diseq(operand(s), operand(s))),
+            6 => Goal::Fd(FdGoal::Distinct(Term::list((0..nvars).map(|v| Term::Var(v as VarId)).collect()))),
+            _ => Goal::Eq(var(s), operand(s)),
+        };
+        let val = |t: &Term| -> i64 {
+            match t {
+                Term::Int(i) => *i,
+                Term::Var(v) => wit[*v as usize],
+                _ => 0,
+            }
+        };
+        let g = if steer {
+            match g {
+                Goal::Fd(FdGoal::Plus(a, b, c)) if val(&a) + val(&b) != val(&c) => {
+                    let k = Term::Int(val(&a) + val(&b));
+                    Goal::Fd(FdGoal::Plus(a, b, k))
+                }
+                Goal::Fd(FdGoal::Minus(a, b, c)) if val(&a) - val(&b) != val(&c) => {
+                    let k = Term::Int(val(&a) - val(&b));
+                    Goal::Fd(FdGoal::Minus(a, b, k))
+                }
+                Goal::Fd(FdGoal::Times(a, b, c)) if val(&a) * val(&b) != val(&c) => {
+                    let k = Term::Int(val(&a) * val(&b));
+                    Goal::Fd(FdGoal::Times(a, b, k))
+                }
+                Goal::Fd(FdGoal::Lte(a, b)) if val(&a) > val(&b) => Goal::Fd(FdGoal::Lte(b, a)),
+                Goal::Fd(FdGoal::Lt(a, b)) if val(&a) >= val(&b) => {
+                    if val(&b) < val(&a) {
+                        Goal::Fd(FdGoal::Lt(b, a))
+                    } else {
+                        Goal::Fd(FdGoal::Lte(a, b))
+                    }
+                }
+                Goal::Eq(a, b) if val(&a) != val(&b) => {
+                    let k = Term::Int(val(&a));
+                    Goal::Eq(a, k)
+                }
+                g => g,
+            }
+        } else {
+            g
+        };
+        cons.push(g);
+    }
+    let mut goals = domain_goals;
+    goals.extend(cons);
+    if s.flag(110) {
+        let perm = s.permutation(goals.len());
+        goals = perm.into_iter().map(|i| goals[i].clone()).collect();
+    }
+    FdCase { nvars, nvisible, shape: QueryShape::Plain, shape_term: None, goals }
+}
